@@ -61,7 +61,9 @@ def _work(task):
             rec = dict(id=ob.id, kind=ob.kind, label=ob.label, props=sorted(effective_props(ob, fn_props)), line=ob.line,
                        note=ob.note, expect=ob.expect, verdict=r['verdict'], backend=r['backend'], time=round(r['time'], 4),
                        model=r['model'], goal=ob.goal.sexpr()[:600], finding=None)
-            if r['verdict'] == 'refuted':
+            if r['verdict'] in ('refuted', 'unknown'):
+                # (an `unknown` is treated like a refutation here: what counts is that the obligation is discharged outside the recorded
+                # exclusion; that the recorded witness still fails on the real code is checked natively by the driver)
                 for f in findings:
                     if f['obligation'] == ob.id and kind == 'fn':
                         # known finding: the obligation must still be discharged outside the recorded exclusion
